@@ -143,7 +143,8 @@ def _rand_op(rng, filled, n):
         ty = rng.randrange(4) if rng.random() < 0.35 else None
         return ["select", s, p, _rand_atmost(rng, n), ty, inplace, d]
     if r < 0.36:
-        return ["sort", s, _rand_key(rng), rng.random() < 0.5, inplace, d]
+        key = ["pair", _rand_key(rng), _rand_key(rng)] if rng.random() < 0.25 else _rand_key(rng)
+        return ["sort", s, key, rng.random() < 0.5, inplace, d]
     if r < 0.46:
         return ["shuffle", s, inplace, d]
     if r < 0.51:
@@ -246,6 +247,10 @@ def _corner_cases():
         ["sort", 0, ["attr", 0], False, False, 1], ["sort", 0, ["attr", 0], True, False, 2],
         ["sort", 0, ["neg", 0], True, False, 3], ["sort", 1, ["idmod", 2], False, True, 0],
         ["sort", 0, ["attr", 1], True, True, 0], ["sort", 2, ["attr", 2], True, False, 4]]}
+    yield {"seed": 1, "agents": ags, "init": ids, "ops": [
+        ["sort", 0, ["pair", ["attr", 0], ["idmod", 2]], False, False, 1], ["sort", 0, ["pair", ["attr", 0], ["idmod", 2]], True, False, 2],
+        ["sort", 1, ["pair", ["idmod", 2], ["neg", 0]], True, True, 0], ["sort", 0, ["pair", ["attr", 0], ["attr", 1]], True, True, 0],
+        ["sort", 2, ["pair", ["cls"], ["attr", 0]], False, False, 3]]}
     # every at_most form against the same set
     ams = [["inf"], ["int", 0], ["int", 1], ["int", 2], ["int", 5], ["int", 6], ["frac", 0, 0], ["frac", 1, 0],
            ["frac", 1, 1], ["frac", 1, 2], ["frac", 3, 2], ["frac", 1, 3], ["frac", 7, 3], ["frac", 15, 4]]
@@ -391,6 +396,9 @@ def _mk_pred(p):
 def _mk_key(k, as_callable=False):
     """what is handed to the implementation: a str for ["attr", n] unless a callable is needed"""
     kind = k[0]
+    if kind == "pair":        # tuple key (sort only): lexicographic
+        f1, f2 = _mk_key(k[1], True), _mk_key(k[2], True)
+        return lambda a: (f1(a), f2(a))
     if kind == "attr":
         name = f"a{k[1]}"
         return (lambda a: getattr(a, name)) if as_callable else name
@@ -1125,6 +1133,8 @@ def _c_op(op):
         _, _, p, am, ty, inplace, d = op
         ps = "None" if p is None else f"(Some {_c_pred(p)})"
         return f"Select {s} {ps} {_c_am(am)} {_c_optz(ty)} {L.b(inplace)} {L.z(d)}"
+    if k == "sort" and op[2][0] == "pair":
+        return f"Sort2 {s} {_c_key(op[2][1])} {_c_key(op[2][2])} {L.b(op[3])} {L.b(op[4])} {L.z(op[5])}"
     if k == "sort":
         return f"Sort {s} {_c_key(op[2])} {L.b(op[3])} {L.b(op[4])} {L.z(op[5])}"
     if k == "shuffle":
